@@ -251,6 +251,21 @@ def run_suffix(case):
     expect_chords("progressions.to_chords(%r, %r)" % (s, key), got, [want], tags={"suffix": suffix, "k": k})
     S.outcome((suffix, key, deg, k, repr(got)))
     S.count("suffixed_chords")
+    if isinstance(got, list) and len(got) == 1:
+        # inside a longer progression the numeral means the same, and so do its neighbours -- before and after it
+        plain = H.fmt((deg + 3) % 7, 0, "", lower)
+        plain7 = H.fmt((deg + 4) % 7, 0, "7", lower)
+        prog = [plain, s, plain, plain7, s]
+        parts = []
+        for t in prog:
+            okp, one = call("progressions.to_chords(%r, %r)" % (t, key), mprog.to_chords, t, key)
+            parts.append(one[0] if okp and isinstance(one, list) and len(one) == 1 else None)
+        if None not in parts:
+            okl, whole = call("progressions.to_chords(%r, %r)" % (prog, key), mprog.to_chords, list(prog), key)
+            S.trans(len(prog) + 1)
+            if okl and whole != parts:
+                S.problem("progressions.to_chords(%r, %r)" % (prog, key), parts, whole, tags={"suffix": suffix, "how": "numeral inside a progression"})
+            S.count("suffixed_chords_inside_progressions")
     if suffix not in ("", "7") and k == 0 and not lower:
         # the same chord type through the chords module: "rebuilds that chord type on the degree's root"
         ok, direct = call("chords.from_shorthand(%r)" % (root + suffix), mchords.from_shorthand, root + suffix)
@@ -390,6 +405,21 @@ def run_function(case):
             S.trans(1)
             if ok:
                 expect_chords("progressions.to_chords(%r, %r)  [numeral returned for %r]" % (h, key, chord), back, [root_position])
+        # a pivot chord: the same notes are asked about in every other major key that holds them, each time straight
+        # after the question in this key
+        for key2 in MAJOR_KEYS:
+            rows2 = H.sevenths(key2) if seventh else H.triads(key2)
+            if key2 == key or list(root_position) not in [list(r) for r in rows2]:
+                continue
+            deg2 = [list(r) for r in rows2].index(list(root_position))
+            call("progressions.determine(%r, %r, True)" % (chord, key), mprog.determine, list(chord), key, True)
+            ok, short2 = call("progressions.determine(%r, %r, True)" % (chord, key2), mprog.determine, list(chord), key2, True)
+            S.trans(2)
+            if ok and not _short_hits(short2, deg2, seventh):
+                S.problem("progressions.determine(%r, %r, True) asked straight after the same notes in %r" % (chord, key2, key),
+                          "a list containing %r (either case)" % H.fmt(deg2, 0, "7" if seventh else ""), short2, tags={"how": "pivot chord"})
+                return
+            S.count("pivot_chords_checked")
     elif form == "list":
         seventh = case[2]
         rows = H.sevenths(key) if seventh else H.triads(key)
